@@ -964,6 +964,33 @@ def _wait_ready_part(e: Engine, rep: Report, due_kind):
             cases.append((n, None, n))
             continue
         a = eff[0] if eff else n.ast.keywords[0].value
+        if aframe is n.frame and isinstance(a, ast.Name) and \
+                n.frame.parent is not None and \
+                a.id in n.frame.ctx.func.params and not any(
+                    isinstance(y, ast.Name) and y.id == a.id and
+                    isinstance(y.ctx, ast.Store)
+                    for y in walk_own(n.frame.ctx.func.node)):
+            # wait(timeout) in a helper `_sleep(self, timeout=None)`: what
+            # this call of the helper was given (nothing = its default)
+            call_site = [c for c in g.of_kind('call_enter')
+                         if c.extra.get('callee_frame') is n.frame]
+            site0 = call_site[0] if call_site else n
+            if a.id in getattr(n.frame, 'arg_exprs', {}):
+                ax, afr = n.frame.arg_exprs[a.id]
+                if isinstance(ax, ast.Constant) and ax.value is None:
+                    cases.append((n, None, site0))
+                else:
+                    cases.append((n, ax, site0))
+                continue
+            fnode = n.frame.ctx.func.node
+            prm = [x.arg for x in fnode.args.args]
+            dfl = fnode.args.defaults
+            k = prm.index(a.id) - (len(prm) - len(dfl)) \
+                if a.id in prm else -1
+            if 0 <= k < len(dfl) and isinstance(dfl[k], ast.Constant) and \
+                    dfl[k].value is None:
+                cases.append((n, None, site0))
+                continue
         if aframe is not n.frame:
             # judged where the duration was computed: the helper's call
             call_site = [c for c in g.of_kind('call_enter')
